@@ -26,10 +26,28 @@ func run(c *mon.Ctx) {
 	c.Floor("rejected.table_id", 100)
 	c.Floor("rejected.identifier", 100)
 	c.Floor("decode_again_after_edit", 2000)
+	c.Floor("sections.command_length_not_given", 5000)
+	c.Floor("sections.pointer_field_over_other_bytes", 2000)
 	c.Stream("sections", c.N(60000, 60000000), func(i int, r *gen.Rand) {
 		s := ref.GenSig(r, true)
 		if r.Chance(8) {
 			s.EncAlg = byte(r.Intn(64))
+		}
+		if r.Chance(5) {
+			s.LegacyCmdLen = true // splice_command_length 0xFFF: not given
+			c.Count("sections.command_length_not_given")
+		}
+		if s.Ptr > 0 && r.Chance(3) {
+			// what the pointer_field points over is the tail of some other section: any bytes, also ones that
+			// look like the start of a splice_info_section
+			s.Skipped = r.Bytes(s.Ptr)
+			if r.Bool() {
+				s.Skipped[0] = 0xfc
+				if t := ref.GenSig(r, false); r.Bool() {
+					copy(s.Skipped, t.Section())
+				}
+			}
+			c.Count("sections.pointer_field_over_other_bytes")
 		}
 		rej := ""
 		if r.Chance(12) {
